@@ -39,6 +39,15 @@
 #include "Estimation/CalcGlobal.hpp"
 #include "Simulation/CalcSimuTurningBands.hpp"
 #include "Simulation/CalcSimuFFT.hpp"
+#include "Simulation/CalcSimuPartition.hpp"
+#include "Simulation/SimuPartitionParam.hpp"
+#include "Simulation/CalcSimuSubstitution.hpp"
+#include "Simulation/SimuSubstitutionParam.hpp"
+#include "Simulation/CalcSimuEden.hpp"
+#include "Estimation/CalcKrigingFactors.hpp"
+#include "Calculators/CalcSimuPost.hpp"
+#include "Enum/EPostStat.hpp"
+#include "Enum/EPostUpscale.hpp"
 #include "Anamorphosis/AnamHermite.hpp"
 #include "Anamorphosis/CalcAnamTransform.hpp"
 #include "Matrix/MatrixRectangular.hpp"
@@ -101,16 +110,18 @@ static NamingConvention make_nc(const Sx& n) {
 }
 
 // model kinds: 0: 2-D, 1 variable; 1: 3-D, 1 variable; 2: 2-D, 2 variables; 3: 2-D with anamorphosis + change of support (DGM);
-//              4: 2-D, 1 variable, one external drift; 5: 1-D
+//              4: 2-D, 1 variable, one external drift; 5: 1-D; 6: 2-D with anamorphosis, no change of support;
+//              7: 2-D, a structure (PENTA) that the turning bands cannot simulate
 static Model* make_model(long long kind, Db* dbin, std::vector<std::unique_ptr<AAnam>>& keep) {
   Model* m = nullptr;
   if (kind == 1) { SpaceRN sp(3); m = Model::createFromParam(ECov::SPHERICAL, 4., 1., 1., VectorDouble(), VectorDouble(), VectorDouble(), &sp); }
   else if (kind == 5) { SpaceRN sp(1); m = Model::createFromParam(ECov::SPHERICAL, 4., 1., 1., VectorDouble(), VectorDouble(), VectorDouble(), &sp); }
   else if (kind == 2) m = Model::createFromParam(ECov::SPHERICAL, 4., 1., 1., VectorDouble(), {2., 0.5, 0.5, 1.});
+  else if (kind == 7) m = Model::createFromParam(ECov::PENTA, 4., 1.);
   else m = Model::createFromParam(ECov::SPHERICAL, 4., 1.);
-  if (m != nullptr && kind == 3 && dbin != nullptr) {
+  if (m != nullptr && (kind == 3 || kind == 6) && dbin != nullptr) {
     AnamHermite* an = AnamHermite::create(8);
-    if (an->fitFromLocator(dbin) == 0) { an->setRCoef(0.8); m->setAnam(an); }
+    if (an->fitFromLocator(dbin) == 0) { if (kind == 3) an->setRCoef(0.8); m->setAnam(an); }
     keep.emplace_back(an);
   }
   if (m != nullptr && kind == 4) m->setDriftIRF(0, 1);
@@ -218,6 +229,39 @@ static std::string run(const Sx& c) {
       else if (sub == 0) { std::unique_ptr<Model> model(make_model(P(0), nullptr, keep)); std::unique_ptr<NeighImage> ni(NeighImage::create({1, 1})); ret = krimage(g, model.get(), ni.get(), nc) == 0; }
       else if (sub == 1) ret = dbMorpho(g, P(0) == 1 ? EMorpho::DILATION : EMorpho::EROSION, 0.5, 1.5, 0, VectorInt(), false, false, nc) == 0;
       else { std::unique_ptr<NeighImage> ni(NeighImage::create({1, 1})); ret = dbSmoother(g, ni.get(), (int) P(0), 1., nc) == 0; }
+    } else if (id == 9) {     // CalcGlobal: sub 0 global_arithmetic, 1 global_kriging ; p = (model ivar0)   (no return code)
+      std::unique_ptr<Model> model(make_model(P(0), din, keep));
+      DbGrid* g = dynamic_cast<DbGrid*>(dout);
+      if (sub == 0 && g == nullptr) ret = -2;
+      else {
+        if (sub == 0) (void) global_arithmetic(din, g, model.get(), (int) P(1), false);
+        else (void) global_kriging(din, dout, model.get(), (int) P(1), false);
+        ret = verif_get_last_stage() == 4 && fail_after != 4;
+      }
+    } else if (id == 10) {    // CalcKrigingFactors: p = (calcul est std model neigh ndisc)
+      std::unique_ptr<Model> model(make_model(P(3), din, keep));
+      std::unique_ptr<ANeigh> neigh(make_neigh(P(4)));
+      VectorInt ndiscs; if (P(5) > 0) ndiscs = VectorInt(2, (int) P(5));
+      ret = krigingFactors(din, dout, model.get(), neigh.get(), calcul_of(P(0)), ndiscs, P(1), P(2), nc) == 0;
+    } else if (id == 11) {    // CalcSimuPost: sub 0 in place (dbout = nullptr), 1 upscaling to the grid; aux = names
+      VectorString names; for (auto& s : c[8].l) names.push_back(s.str());
+      DbGrid* g = sub == 1 ? dynamic_cast<DbGrid*>(dout) : nullptr;
+      if (sub == 1 && g == nullptr) ret = -2;
+      else ret = simuPost(din, g, names, false, EPostUpscale::MEAN, EPostStat::fromKeys({"MEAN"}), false, VectorInt(), 0, nc) == 0;
+    } else if (id == 12) {    // CalcSimuPartition (sub 0 voronoi, 1 poisson; p = (model)) / CalcSimuSubstitution (sub 2; p = (nfacies))
+      DbGrid* g = dynamic_cast<DbGrid*>(dout);
+      if (g == nullptr) ret = -2;
+      else if (sub == 2) { SimuSubstitutionParam sp((int) P(0)); ret = substitution(g, sp, 4321, false, nc) == 0; }
+      else {
+        std::unique_ptr<Model> model(P(0) >= 0 ? make_model(P(0), nullptr, keep) : nullptr);
+        SimuPartitionParam pp(10, 0.1);
+        ret = (sub == 0 ? tessellation_voronoi(g, model.get(), pp, 4321, false, nc) : tessellation_poisson(g, model.get(), pp, 4321, false, nc)) == 0;
+      }
+    } else if (id == 13) {    // CalcSimuEden: p = (nfacies nfluids niter) ; aux = (name_facies name_fluid)
+      DbGrid* g = dynamic_cast<DbGrid*>(dout);
+      VectorString names; for (auto& s : c[8].l) names.push_back(s.str());
+      if (g == nullptr || names.size() < 2) ret = -2;
+      else ret = fluid_propagation(g, names[0], names[1], "", "", (int) P(0), (int) P(1), (int) P(2), VectorInt(), false, TEST, TEST, 4321, false, nc) == 0;
     } else ret = -2;
   } catch (const std::exception& e) {
     verif_set_fail_after(-1);
